@@ -543,6 +543,26 @@ def cases(rng, tier, seed):
             c = make_series_case(sp)
         if c:
             out.append(c)
+    # --- axes rebuilt from an existing axis whose interval is beyond binary64's integer range (>= 2^52 ps:
+    # hours to weeks, odd picosecond counts), with no spec / unit only / length / duration
+    big = [2**53 + 1, 2**52 + 1, 86400 * 10**12 + 1, 11 * 86400 * 10**11 + 7, 604800 * 10**12 // 7 * 3 + 1]
+    for j in range(90 * k):
+        adt = big[j] if j < len(big) else (rng.randrange(2**52, 2**57) | 1)
+        an = rng.randint(1, max(1, min(20, 2**60 // adt)))
+        au = rng.choice(['D', 'W', 'h', 'ps', rng.choice(UNITS)])
+        at0 = rng.choice([0, 5, rng.randint(-10**17, 10**17)])
+        how = ['nothing', 'unit', 'length', 'duration'][j % 4]
+        sp = {'axis': (au, int(at0), int(adt), int(an)), 'length': None, 'duration': None, 'rate': None, 'interval': None,
+              't0': None if rng.random() < 0.7 else ('T', au, rng.randint(-10**17, 10**17)), 'unit': 'none'}
+        if how == 'unit':
+            sp['unit'] = rng.choice(UNITS)
+        elif how == 'length':
+            sp['length'] = rng.randint(1, max(1, min(25, 2**60 // adt)))
+        elif how == 'duration':
+            sp['duration'] = ('T', rng.choice(UNITS), adt * rng.randint(1, max(1, min(20, 2**60 // adt))) - rng.choice([0, 0, 1, adt // 2]))
+        c = make_uniform_case(sp)
+        if c:
+            out.append(c)
     # --- series
     for sp in [{'n': 100, 'ndim': 1, 't0': None, 'interval': ('f', 2.2), 'rate': None, 'duration': None, 'unit': 'm'},
                {'n': 10, 'ndim': 1, 't0': None, 'interval': None, 'rate': None, 'duration': ('i', 10), 'unit': 'default'},
@@ -644,6 +664,13 @@ def judge_axis(o, unit, t0_arg, t0_inherit, interval, rate_hz, inherit_dt, lengt
         lo, hi = num_bounds(interval, unit)
         if not (lo <= dt <= hi):
             return 'interval-wrong', 'stored interval %d ps is not the nearest picosecond to the requested interval [%s, %s]' % (dt, float(lo), float(hi))
+    elif inherit_dt is not None and dt != inherit_dt:
+        # the sampling is taken over from an existing axis: the interval must be that axis' own, whatever its size
+        if dt == inherit_dt - 1 and inherit_dt < 2**50:
+            return 'period-truncated', 'axis rebuilt from another one has interval %d ps, the source has %d ps' % (dt, inherit_dt)
+        return 'interval-changed', 'axis rebuilt from another one has interval %d ps, the source has %d ps (re-derived from the binary64 rate)' % (dt, inherit_dt)
+    elif inherit_dt is not None:
+        pass
     elif rate_hz is not None:
         P = Fr(10**12) / Fr(rate_hz)
         slack = Fr(1, 2) + P / 2**50
@@ -662,8 +689,6 @@ def judge_axis(o, unit, t0_arg, t0_inherit, interval, rate_hz, inherit_dt, lengt
         if len(owners) == 1 and dt != owners[0]:
             return ('period-truncated' if dt == owners[0] - 1 else 'interval-not-the-one-with-this-rate'), \
                 'rate %r Hz is the rate of the axis with interval %d ps, but the axis built from it has %d ps' % (rate_hz, owners[0], dt)
-        if inherit_dt is not None and inherit_dt < 2**50 and dt != inherit_dt:
-            return ('period-truncated' if dt == inherit_dt - 1 else 'interval-changed'), 'axis rebuilt from another one has interval %d ps, the source has %d ps' % (dt, inherit_dt)
     else:
         dlo, dhi = num_bounds(duration, unit)
         P = (dlo + dhi) / 2 / n_for_div
